@@ -113,6 +113,14 @@ func LoadIndex(idx index.Index, r io.Reader, opts ...Option) error {
 
 	records := make([]index.Record, 0)
 	for {
+		// Check if we have reached the end of data payload and if so treat it as an EOF.
+		// Note, dataSize will be non-zero only if we are reading from a CARv2.
+		// The check comes before reading a section so that a payload without sections is
+		// not read past its end into the index or padding that follows it.
+		if dataSize != 0 && sectionOffset >= dataSize {
+			break
+		}
+
 		// Read the section's length.
 		sectionLen, err := varint.ReadUvarint(reader)
 		if err != nil {
@@ -152,12 +160,6 @@ func LoadIndex(idx index.Index, r io.Reader, opts ...Option) error {
 		}
 		// Subtract the data offset which will be non-zero when reader represents a CARv2.
 		sectionOffset -= dataOffset
-
-		// Check if we have reached the end of data payload and if so treat it as an EOF.
-		// Note, dataSize will be non-zero only if we are reading from a CARv2.
-		if dataSize != 0 && sectionOffset >= dataSize {
-			break
-		}
 	}
 
 	if err := idx.Load(records); err != nil {
